@@ -49,6 +49,12 @@ type scriptReader struct {
 
 var errScript = errors.New("scripted reader error")
 
+// eofLike answers errors.Is(err, io.EOF) without being io.EOF.
+type eofLike struct{}
+
+func (eofLike) Error() string        { return "stream closed by peer" }
+func (eofLike) Is(target error) bool { return target == io.EOF }
+
 func (r *scriptReader) Read(p []byte) (int, error) {
 	if r.i >= len(r.steps) {
 		return 0, io.EOF
@@ -71,6 +77,18 @@ func (r *scriptReader) Read(p []byte) (int, error) {
 		return -1, nil
 	case s == -2:
 		return 0, errScript
+	case s <= -5: // errors that merely WRAP or RESEMBLE io.EOF are ordinary errors (bytes.Buffer compares with ==)
+		n := 4
+		if n > len(p) {
+			n = len(p)
+		}
+		for j := 0; j < n; j++ {
+			p[j] = 'w'
+		}
+		if s%2 == 0 {
+			n = 0
+		}
+		return n, []error{fmt.Errorf("read body: %w", io.EOF), errors.Join(errScript, io.EOF), eofLike{}, io.ErrUnexpectedEOF}[(-s-5)%4]
 	case s == -4: // data together with a non-EOF error, which the io.Reader contract allows
 		n := 5
 		if n > len(p) {
@@ -314,7 +332,7 @@ func c19diff(c *Ctx) {
 			case 12:
 				var steps []int
 				for i := r.Intn(5); i >= 0; i-- {
-					steps = append(steps, gen.Pick(r, []int{1, 5, 100, 511, 512, 513, 2000, 0, 0, -1, -2, -3, -4, -4}))
+					steps = append(steps, gen.Pick(r, []int{1, 5, 100, 511, 512, 513, 2000, 0, 0, -1, -2, -3, -4, -4, -5, -6, -7, -8, -9, -10, -11, -12}))
 				}
 				fill := byte(r.Intn(200))
 				name = fmt.Sprintf("ReadFrom(reader script %v)", steps)
